@@ -48,6 +48,7 @@ def modelRejects (prim : String) (p : List Nat) : Bool :=
   | "grayenc", [w] => w == 0
   | "bpt", [w] => w ≥ 32
   | "divs", [nw, _] => nw < 2
+  | "divpipe", [nw, _, _, sgn] => sgn == 1 && nw < 2
   | "crc", [rw, dw, pw] => pw > max rw dw || max rw dw == 0 || dw == 0
   | "bad", _ => true
   | _, _ => false
@@ -189,6 +190,9 @@ structure D where
   sdom : Bool := true     -- the specification state is inside its domain (value < end)
   prevDesc : String := "after=[reset]"
   histBits : Array (List Bool) := #[]    -- input stream of a registered (pipelined) primitive
+  histIn : Array (Nat × Nat) := #[]       -- input stream of the pipelined divider
+  stages : Nat := 0
+  failClasses : List (String × Nat) := []
   -- statistics
   cases : Nat := 0
   ops : Nat := 0
@@ -206,9 +210,17 @@ def D.diff (d : D) (msg : String) : IO D := do
   if !d.reportedDiff then IO.println s!"DIFF case={d.caseId} {d.header} {msg}"
   return { d with diffs := d.diffs + 1, reportedDiff := true }
 
+/-- coarse class of a property failure; at most 3 cases per class are printed (all are counted) -/
+def failClass (prim msg : String) : String :=
+  let has (p : String) := (msg.splitOn p).length > 1
+  prim ++ (if has "unbalanced-latency" then ":ul" else "") ++ (if has "inc&dec-at-limit" then ":lim" else "") ++ (if has "impl=err" then ":err" else "")
+
 def D.fail (d : D) (msg : String) : IO D := do
-  if !d.reportedFail then IO.println s!"PROPFAIL case={d.caseId} {d.header} {msg}"
-  return { d with propfails := d.propfails + 1, reportedFail := true }
+  let cls := failClass d.prim msg
+  let seen := (d.failClasses.find? (·.1 == cls)).map (·.2) |>.getD 0
+  if !d.reportedFail && seen < 3 then IO.println s!"PROPFAIL case={d.caseId} {d.header} {msg}"
+  return { d with propfails := d.propfails + 1, reportedFail := true,
+                  failClasses := if d.reportedFail then d.failClasses else bump d.failClasses cls }
 
 def splitIO (toks : List String) : List String × List String :=
   let ins := toks.takeWhile (· != ">")
@@ -306,6 +318,25 @@ def stepTreeReg (d : D) (toks : List String) : IO D := do
       return d
   | _, _ => d.diff s!"unparsed petreereg line {toks}"
 
+/-- pipelined longDivision: out(t) = n(t-L) / d(t-L) -/
+def stepDivPipe (d : D) (toks : List String) : IO D := do
+  let (ins, outs) := splitIO toks
+  match d.params, ins with
+  | [nw, dw, _, sgn], [a, b] =>
+    let hist := d.histIn.push ((parseBits a).2, (parseBits b).2)
+    let t := hist.size - 1
+    let mut d := { d with histIn := hist }
+    let L := d.stages
+    if t < L then return d
+    let (n, dd) := hist.getD (t - L) (0, 0)
+    let m := if sgn == 1 then longDivisionS nw dw n dd else (longDivision nw dw n dd).1
+    if [fmt nw m] != outs then d ← d.diff s!"t={t} stages={L} in(t-L)=[{n}, {dd}] model={fmt nw m} impl={outs}"
+    if dd != 0 then
+      let sp := if sgn == 1 then Spec.sdiv nw n dd else n / dd
+      if [fmt nw sp] != outs then d ← d.fail s!"t={t} stages={L} in(t-L)=[{n}, {dd}] spec={fmt nw sp} impl={outs}"
+    return d
+  | _, _ => d.diff s!"unparsed divpipe line {toks}"
+
 def stepV (d : D) (toks : List String) : IO D := do
   let (ins, outs) := splitIO toks
   let insP := ins.map parseBits
@@ -341,9 +372,13 @@ partial def loop (h : IO.FS.Stream) (d : D) : IO D := do
     let reset := params.getD 1 0
     loop h { d with caseId := k, prim := prim, params := params, header := s!"prim={prim} params={params}",
                     reportedDiff := false, reportedFail := false, sawErr := false, cases := d.cases + 1,
-                    cfg := cfg, mval := reset % 2 ^ cfg.w, sval := reset % 2 ^ cfg.w, sdom := true, prevDesc := "after=[reset]", histBits := #[],
+                    cfg := cfg, mval := reset % 2 ^ cfg.w, sval := reset % 2 ^ cfg.w, sdom := true, prevDesc := "after=[reset]", histBits := #[], histIn := #[], stages := 0,
                     whist := bump d.whist (wclass (params.getD 0 0)) }
   | ["end"] => loop h d
+  | ["stages", l] =>
+    let m := longDivisionStages (d.params.getD 0 0) (d.params.getD 2 0)
+    let d := { d with stages := l.toNat! }
+    if m != l.toNat! then loop h (← d.diff s!"stages model={m} impl={l}") else loop h d
   | ["width", w] =>
     if isCounter d.prim && w.toNat! != d.cfg.w then loop h (← d.diff s!"width model={d.cfg.w} impl={w}") else loop h d
   | ["err", cls] =>
@@ -355,7 +390,7 @@ partial def loop (h : IO.FS.Stream) (d : D) : IO D := do
     let d ← stepV d rest
     loop h { d with ops := d.ops + 1, hist := bump d.hist d.prim }
   | "s" :: rest =>
-    let d ← if d.prim == "petreereg" then stepTreeReg d rest else stepSeq d rest
+    let d ← if d.prim == "petreereg" then stepTreeReg d rest else if d.prim == "divpipe" then stepDivPipe d rest else stepSeq d rest
     loop h { d with ops := d.ops + 1, hist := bump d.hist d.prim }
   | _ => loop h (← d.diff s!"unparsed line {line.trimAscii.toString}")
 
